@@ -221,6 +221,53 @@ Qed.
 
 (** * Sentence 2 *)
 
+(** Unconditional form: the witness consists of entries that are stored and unmarked just
+    before the purge. *)
+Theorem retained_justified_pre : forall sy pp f s0 v p,
+  no_eternal sy -> stack s0 = [] -> invalid s0 = [] ->
+  let se := before_purge f sy pp s0 v p in
+  let s1 := fst (calc (S f) sy pp s0 v p) in
+  forall k a, lookup k (cache s1) = Some a -> lookup k (cache s0) <> Some a ->
+  exists W : list (key * val),
+    (forall k' a', lookup k' W = Some a' ->
+       k' <> k /\ lookup k' (cache se) = Some a' /\ ~ In k' (invalid se)) /\
+    snd (calc (S f) sy pp {| cache := W; stack := []; invalid := [] |} (fst k) (snd k)) = Ok a.
+Proof.
+  intros sy pp f s0 v p Hne Hst Hinv se s1 k a Hk Hold. subst s1.
+  rewrite calc_before_purge in Hk. fold se in Hk.
+  assert (HJ0 : J sy pp (cache s0) (S f) s0) by (intros k' a' H'; now left).
+  assert (HQ0 : Qs s0) by (intros k' H'; rewrite Hst in H'; destruct H').
+  assert (HJe : J sy pp (cache s0) (S f) se).
+  { refine (body_J sy pp Hne (cache s0) (S f) f s0 v p (le_n _) _ HQ0 HJ0).
+    intros s w q. apply calc_J; auto. }
+  assert (Hse : stack se = []).
+  { unfold se, before_purge, pop; cbn [stack].
+    pose proof (body_calc_frame sy pp f (push (v, p) s0) v p ltac:(discriminate)) as [X _].
+    rewrite X. cbn [push stack tl]. exact Hst. }
+  unfold purge in Hk. rewrite Hse in Hk. cbn [cache] in Hk.
+  destruct (purge_fold_sound sy k a Hne _ _ Hk) as [Hk1 Hk2].
+  destruct (HJe k a Hk1) as [H|[[H1 H2]|(W & HS & Hc)]].
+  - contradiction.
+  - exfalso. now apply H2, Hk2.
+  - exists W. split; [exact HS|exact Hc].
+Qed.
+
+Lemma purge_keeps_unmarked sy s k a : no_eternal sy -> stack s = [] -> marks_exact s ->
+  lookup k (cache s) = Some a -> ~ In k (invalid s) -> lookup k (cache (purge sy s)) = Some a.
+Proof.
+  intros Hne Hst Hex Hk Hn. unfold purge. rewrite Hst. cbn [cache].
+  apply purge_fold_complete; auto. intros m Hm. exact (Hex m k a Hm Hk).
+Qed.
+
+Lemma before_purge_stack sy pp f s0 v p : stack (before_purge f sy pp s0 v p) = stack s0.
+Proof.
+  unfold before_purge, pop; cbn [stack].
+  pose proof (body_calc_frame sy pp f (push (v, p) s0) v p ltac:(discriminate)) as [X _].
+  now rewrite X.
+Qed.
+
+(** With [marks_exact] on the state before the purge, the witness is a set of values
+    that are still readable after the request. *)
 Theorem retained_justified : forall sy pp f s0 v p,
   no_eternal sy -> stack s0 = [] -> invalid s0 = [] ->
   marks_exact (before_purge f sy pp s0 v p) ->
@@ -230,25 +277,29 @@ Theorem retained_justified : forall sy pp f s0 v p,
     (forall k' a', lookup k' W = Some a' -> k' <> k /\ lookup k' (cache s1) = Some a') /\
     snd (calc (S f) sy pp {| cache := W; stack := []; invalid := [] |} (fst k) (snd k)) = Ok a.
 Proof.
-  intros sy pp f s0 v p Hne Hst Hinv Hex s1 k a Hk Hold. subst s1.
-  rewrite calc_before_purge in Hk |- *.
-  assert (HJ0 : J sy pp (cache s0) (S f) s0) by (intros k' a' H'; now left).
-  assert (HQ0 : Qs s0) by (intros k' H'; rewrite Hst in H'; destruct H').
-  assert (HJe : J sy pp (cache s0) (S f) (before_purge f sy pp s0 v p)).
-  { refine (body_J sy pp Hne (cache s0) (S f) f s0 v p (le_n _) _ HQ0 HJ0).
-    intros s w q. apply calc_J; auto. }
-  assert (Hse : stack (before_purge f sy pp s0 v p) = []).
-  { unfold before_purge, pop; cbn [stack].
-    pose proof (body_calc_frame sy pp f (push (v, p) s0) v p ltac:(discriminate)) as [X _].
-    rewrite X. cbn [push stack tl]. exact Hst. }
-  set (se := before_purge f sy pp s0 v p) in *.
-  unfold purge in Hk |- *. rewrite Hse in Hk |- *. cbn [cache] in Hk |- *.
-  destruct (purge_fold_sound sy k a Hne _ _ Hk) as [Hk1 Hk2].
-  destruct (HJe k a Hk1) as [H|[[H1 H2]|(W & HS & Hc)]].
-  - contradiction.
-  - exfalso. now apply H2, Hk2.
-  - exists W. split; [|exact Hc].
-    intros k' a' Hk'. destruct (HS k' a' Hk') as (A & B & C). split; [exact A|].
-    apply purge_fold_complete; auto.
-    intros m Hm. exact (Hex m k' a' Hm B).
+  intros sy pp f s0 v p Hne Hst Hinv Hex s1 k a Hk Hold.
+  destruct (retained_justified_pre sy pp f s0 v p Hne Hst Hinv k a Hk Hold) as (W & HS & Hc).
+  exists W. split; [|exact Hc].
+  intros k' a' Hk'. destruct (HS k' a' Hk') as (A & B & C). split; [exact A|].
+  subst s1. rewrite calc_before_purge.
+  apply purge_keeps_unmarked; auto. now rewrite before_purge_stack.
+Qed.
+
+(** A decision procedure for [marks_exact] (used by the examples). *)
+Definition marks_exact_b (s : st) : bool :=
+  forallb (fun m => forallb (fun kv =>
+             negb (Nat.eqb (fst m) (fst (fst kv)) && contains (snd m) (snd (fst kv)))
+             || period_eqb (snd m) (snd (fst kv))) (cache s)) (invalid s).
+
+Lemma marks_exact_b_sound s : marks_exact_b s = true -> marks_exact s.
+Proof.
+  unfold marks_exact_b, marks_exact. intros H m k a Hm Hk Hf Hc.
+  rewrite forallb_forall in H. specialize (H m Hm). rewrite forallb_forall in H.
+  unfold lookup in Hk. destruct (find (fun kv => key_eqb k (fst kv)) (cache s)) as [kv|] eqn:E; [|discriminate].
+  apply find_some in E as [Hin He]. apply key_eqb_iff in He. subst k.
+  specialize (H kv Hin). cbn beta in H.
+  apply orb_true_iff in H as [H|H]; [|now apply period_eqb_iff].
+  exfalso. apply negb_true_iff, andb_false_iff in H as [H|H].
+  - rewrite Hf, Nat.eqb_refl in H. discriminate.
+  - exact (eq_true_false_abs _ Hc H).
 Qed.
